@@ -18,11 +18,31 @@ DRIVERS = {"pairs-restart": ("harness.checks.c08", "pair_only", "PairTrace", FAM
 def family(rng):
     nsteps = rng.randrange(4, 11)
     ops = rng.choice([1, 2, 2, 3])
-    base = base_scenario(rng, rev=False, nsteps=nsteps, ops=ops, numrec=rng.choice([1, 2, 2, 3]), layout="sparse", pvars=True,
+    base = base_scenario(rng, rev=False, nsteps=nsteps, ops=ops, numrec=rng.choice([1, 2, 2, 3]), layout="sparse", pvars=rng.random() < 0.6,
                          hasscal=rng.random() < 0.5, ntimes=rng.choice([2, 3]), nfreeze=0, nkill=0, allow_subgrid=rng.random() < 0.3)
     farms = [r["id"] for r in base["rows"]]
     base["killfarm"] = sorted([rng.randrange(0, nsteps), rng.choice(farms)] for _ in range(rng.choice([0, 1, 2])))
     return dict(base=base, cls=dict(cont=base["cont"], adv=base["adv"], ops_divides=nsteps % ops == 0, numrec=base["numrec"]))
+
+
+def family_newest_dies(rng):
+    """directed: discrete release, restart files WITHOUT particle variables, and the newest particles die soon after their
+    release - before, or inside, the file the run is restarted from; later release times must still get fresh identifiers"""
+    nsteps = rng.randrange(6, 11)
+    ops = rng.choice([1, 1, 2])
+    base = base_scenario(rng, rev=False, nsteps=nsteps, ops=ops, numrec=rng.choice([1, 2, 2, 3]), layout="sparse", pvars=rng.random() < 0.2,
+                         hasscal=False, ntimes=3, cont=False, nfreeze=0, nkill=0, allow_subgrid=False, exact_stop=True)
+    for r in base["rows"]:
+        r["mult"] = max(1, r["mult"])
+    times = sorted({r["t"] for r in base["rows"]})
+    kf = []
+    for t in times[:-1]:
+        if rng.random() < 0.8:
+            s = (t - base["start"]) // base["dt"]
+            if 0 <= s < nsteps:
+                kf += [[s + rng.choice([0, 0, 1, 2]), r["id"]] for r in base["rows"] if r["t"] == t]
+    base["killfarm"] = sorted(k for k in kf if k[0] < nsteps)
+    return dict(base=base, cls=dict(cont=False, adv=base["adv"], ops_divides=nsteps % ops == 0, numrec=base["numrec"], directed="newest_dies", pvars=base["pvars"]))
 
 
 def run_family(sc):
@@ -36,7 +56,8 @@ def pair_only(sc):
 
 def restarted_only(sc):
     r = run_family(sc)["ladim"]
-    return r[1] if len(r) > 1 else r[0]
+    k = 1 + sc.get("restart_k", 0)
+    return r[k] if len(r) > k else r[-1]
 
 
 def run(tier, seed):
@@ -50,14 +71,16 @@ def run(tier, seed):
                note="control: restoring the identifier counter from the highest pid on file (pinned design) is refuted")
     rng = random.Random(seed)
     fams = [family(rng) for _ in range(400 if tier == "thorough" else 90)]
+    rd = random.Random(seed + 17)
+    fams += [family_newest_dies(rd) for _ in range(160 if tier == "thorough" else 40)]
     res = pmap("harness.checks.c08", "run_family", fams)
     ref = [r["ladim"][0] for r in res]
     rep.add_tv("uninterrupted-runs", "LadimTrace", fams, ref, tlc.validate_traces("LadimTrace", ref, batch_events=1500), family=r"^$")
     rs, owners = [], []
     for f, r in zip(fams, res):
-        for t in r["ladim"][1:]:
+        for k, t in enumerate(r["ladim"][1:]):
             rs.append(t)
-            owners.append(f)
+            owners.append(dict(f, restart_k=k))      # (replay re-runs the family and validates this restart)
     if len(rs) < len(fams) // 2:
         raise tlc.MachineryError(f"vacuous run: only {len(rs)} restarts were generated")
     rep.add_tv("restarted-runs", "LadimTrace", owners, rs, tlc.validate_traces("LadimTrace", rs, batch_events=1500), family=FAMILY_L)
